@@ -443,13 +443,15 @@ pub fn run(prop: &str) -> Report {
     let c08 = prop == "C08";
     let (hist, bound) = grammar_histories(thorough, c08);
     rep.bound = bound;
-    rep.rule = "every spend history of the grammar: 3 blocks (real genesis + 2), coinbases paying A/B or byte-identical duplicates, <=N non-coinbase txs placed in any block, each input chosen from {any output created earlier incl. same block, an output created later (spend-before-create), unknown txid, the null outpoint, out-of-range index, an outpoint referenced before (double reference)}, outputs from {A, B, OP_RETURN, bare multisig, zero-value A (, P2PK of A's key)}; histories whose references form a hash cycle are unrealisable and skipped; plus output-index width sweeps, --start ranges and 3 coins; non-trivial = distinct realisable history".into();
+    rep.rule = "every spend history of the grammar: 3 blocks (real genesis + 2), coinbases paying A/B or byte-identical duplicates, <=N non-coinbase txs placed in any block, each input chosen from {any output created earlier incl. same block, an output created later (spend-before-create), unknown txid, the null outpoint, out-of-range index, an outpoint referenced before (double reference)}, outputs from {A, B, OP_RETURN, bare multisig, zero-value A (, P2PK of A's key)}; histories whose references form a hash cycle are unrealisable and skipped; plus output-index width sweeps, --start ranges, 3 coins, three-block chains around 20 heights with a meaning in a chain's history, and the directories spelled 9 ways on the command line; non-trivial = distinct realisable history".into();
     let root = refmodel::world::scratch_root();
     // work items: (history index, coin, --start) and the index-width sweeps
     #[derive(Clone)]
     enum Item {
         H(usize, &'static str, Option<u64>),
         W(&'static str, usize),
+        /// three blocks around a height that has a meaning in some chain's history (nothing in C07/C08 depends on it)
+        Hist(&'static str, u64),
     }
     let mut items: Vec<Item> = (0..hist.len()).map(|i| Item::H(i, "bitcoin", None)).collect();
     let stride = if thorough { 7 } else { 40 };
@@ -474,6 +476,15 @@ pub fn run(prop: &str) -> Report {
             }
         }
     }
+    // heights as ground values: BIP30's repeated coinbases and their originals, BIP34/66/65, CSV, segwit, taproot, halvings,
+    // AuxPoW starts, other chains' fork heights; a pruned node's chain of three blocks H-1..H+1 read with --start H-1
+    for cname in ["bitcoin", "litecoin", "dogecoin"] {
+        for h in [91_722u64, 91_812, 91_842, 91_880, 210_000, 227_931, 363_725, 388_381, 419_328, 420_000, 478_558, 481_824, 630_000, 709_632, 840_000, 19_200, 145_000, 371_337, 1_680_000, 21_111] {
+            if cname == "bitcoin" || thorough || h < 100_000 {
+                items.push(Item::Hist(cname, h));
+            }
+        }
+    }
     let cap = wall_cap();
     let t0 = std::time::Instant::now();
     let capped = std::sync::atomic::AtomicUsize::new(usize::MAX);
@@ -495,6 +506,26 @@ pub fn run(prop: &str) -> Report {
                     let all = cb.mblocks();
                     run_and_judge(prop, c08, &wk, cn, &world, &all, None, &label, acc, false);
                     acc.count("index-width-sweep", 1);
+                }
+                Item::Hist(cname, h) => {
+                    let cn = coin(cname);
+                    // every coinbase pays two addresses; the next block spends the first output, the second stays unspent
+                    let mut cb = ChainBuilder::at(cn, *h - 1);
+                    let mut prev: Option<[u8; 32]> = None;
+                    for _ in 0..3 {
+                        let hh = cb.next_height();
+                        let cbtx = refmodel::chain::coinbase(hh, 11, vec![refmodel::chain::pay((hh % 100) as u8 + 3, 30 * refmodel::chain::COIN_VALUE), refmodel::chain::pay((hh % 100) as u8 + 120, 20 * refmodel::chain::COIN_VALUE)]);
+                        let mut txs = vec![cbtx.clone()];
+                        if let Some(p) = prev {
+                            txs.push(Tx { version: 2, segwit: false, inputs: vec![TxIn::spend(p, 0)], outputs: vec![refmodel::chain::pay(200, 29 * refmodel::chain::COIN_VALUE)], locktime: 0, wide: 0 });
+                        }
+                        prev = Some(cbtx.txid());
+                        cb.push_raw(txs);
+                    }
+                    let world = World::simple(cn, &cb.blocks, *h - 1);
+                    let all = cb.mblocks();
+                    run_and_judge(prop, c08, &wk, cn, &world, &all, Some(*h - 1), &format!("three blocks around height {}", h), acc, true);
+                    acc.count("chain-around-a-historic-height", 1);
                 }
             }
         },
@@ -612,6 +643,11 @@ fn run_and_judge(prop: &str, c08: bool, wk: &Worker, cn: &'static Coin, world: &
     // verbosity by case (none of the big worlds: a trace line per block and output would only cost time)
     let verbosity = if embed { h8(label.as_bytes())[1] % 4 } else { 0 };
     spec_u.verbosity = verbosity;
+    // how the two directories are spelled on the command line, by case (absolute, relative, trailing slash, through links,
+    // the current directory named "", "." or "./")
+    let path_form = if embed { h8(label.as_bytes())[2] % 9 } else { 0 };
+    spec_u.env.push(("VERIF_PATH_FORM".into(), path_form.to_string()));
+    acc.count(&format!("path-form:{}", path_form), 1);
     // every fourth case starts from a dump folder holding the (longer) *.csv.tmp leftovers of an aborted earlier dump
     let dirty = h8(label.as_bytes())[0] % 4 == 0;
     let run = |spec: &RunSpec| {
@@ -656,6 +692,7 @@ fn run_and_judge(prop: &str, c08: bool, wk: &Worker, cn: &'static Coin, world: &
     let mut spec_b = RunSpec::new(cn.name, "balances").range(start, None);
     spec_b.env.push(("VERIF_RUN_TIMEOUT".into(), "120".into()));
     spec_b.verbosity = verbosity;
+    spec_b.env.push(("VERIF_PATH_FORM".into(), path_form.to_string()));
     let rb = run(&spec_b);
     acc.transitions += 1;
     if let Some((sig, detail)) = check_balances(&rb, cn, &range, s, e).into_iter().next() {
